@@ -544,6 +544,16 @@ static void actor_body(int idx) {
     } else if (a.action == 1) {
         int r = W->cfs->get_pool()->evict(std::string_view(W->fname[0]));
         char b[32]; snprintf(b, sizeof b, "%s=evict:%d ", who, r); W->log += b;
+    } else if (a.action == 4) {
+        // prefetch the whole file (fadvise WILLNEED -> try_refill_range: refill without a caller buffer)
+        IFile* f = W->cfs->open(W->fname[0].c_str(), O_RDONLY);
+        if (!f) pmc_violation("open-failed", "%s: open for prefetch failed, errno %d", who, errno);
+        ReadCtx c; W->ctx[photon::CURRENT] = &c;
+        int r = f->fadvise(0, W->fsize[0], POSIX_FADV_WILLNEED);
+        W->ctx.erase(photon::CURRENT);
+        if (r != 0 && !c.fault) pmc_violation("prefetch-failed-without-source-fault", "%s: fadvise(WILLNEED) on %s returned %d although no source read issued by it failed or was short", who, W->fname[0].c_str(), r);
+        char b[32]; snprintf(b, sizeof b, "%s=prefetch:%d/s%d ", who, r, c.nsrc); W->log += b;
+        delete f;
     } else if (a.action == 3) {
         // 300 virtual seconds pass: the pool's eviction timer fires, released stores outlive their TTL
         sv::advance_to(sv::vnow + 3 * LONG_US);
@@ -584,8 +594,10 @@ static void quiet_full_read(const char* who, bool twice) {
 // One execution = one VARIANT (first PROG choice of the suite) + the program choices of its scenario + the environment's answers.
 // variant "<scenario>:<pool>:<fie|rng>:ru<4|8>:s<size>[,<size>...]:a<1|2>:y<classes>"
 //   scenario  rr        two concurrent readers on a cold cache
-//             re<c|w><1|2|3>  reader, evictor, reader (3 start orders) on a cold / warm (whole file cached) cache;
-//                       evictor: 1 pool->evict(file), 2 fills the pool through /b, 3 lets 300 s pass (pool timer, store TTL)
+//             re<c|w|r|a><1|2|3|4>  reader, evictor, reader (3 start orders) on a cold / warm (whole file cached) cache /
+//                       warm media reused by a new pool with sync scan / with async scan;
+//                       evictor: 1 pool->evict(file), 2 fills the pool through /b, 3 lets 300 s pass (pool timer, store TTL),
+//                       4 prefetches the whole file (fadvise WILLNEED)
 //             sq        sequential: read, punch (no read in flight), reuse of the media by a new pool, read
 //             sqx       the same with files of at most one page, where "punch from 4096 to the end" starts at or beyond EOF
 //   pool      cap1 | cap0 | disk | big | quota     map: fiemap works / range map + SEEK_DATA,SEEK_HOLE
@@ -620,8 +632,7 @@ void pmc_run(const char* config) {
     {
         const Suite* su = nullptr;
         for (auto& x : SUITES) if (!strcmp(x.name, config)) su = &x;
-        if (!su) pmc_broken("unknown suite %s", config);
-        const char* var = su->variants[pmc_choose((int)su->variants.size(), PMC_PROG, 0, "variant")];
+        const char* var = su ? su->variants[pmc_choose((int)su->variants.size(), PMC_PROG, 0, "variant")] : config;
         w.log = var; w.log += " ";
         char scn[8], pool[8], map[8], sizes[64], ys[8]; int ru, al;
         if (sscanf(var, "%7[^:]:%7[^:]:%7[^:]:ru%d:s%63[^:]:a%d:y%7s", scn, pool, map, &ru, sizes, &al, ys) != 7) pmc_broken("bad variant %s", var);
@@ -649,7 +660,11 @@ void pmc_run(const char* config) {
         for (int i = 0; i < 2; i++) { w.actors[i].role = 'R'; w.actors[i].fid = 0; w.actors[i].spec = choose_spec(0, i ? "reader 2 range" : "reader 1 range"); }
         run_actors({0, 1});
     } else if (w.family.size() == 4 && w.family[0] == 'r' && w.family[1] == 'e') {
-        if (w.family[2] == 'w') quiet_full_read("W", false);
+        if (w.family[2] != 'c') quiet_full_read("W", false);
+        if (w.family[2] == 'r' || w.family[2] == 'a') {       // the actors meet a NEW pool on the media left by the old one (sync / async scan)
+            delete w.cfs; w.cfs = nullptr;
+            build_cache(w.family[2] == 'a');
+        }
         w.actors.resize(3);
         w.actors[0].role = 'R'; w.actors[0].fid = 0; w.actors[0].spec = choose_spec(0, "reader 1 range", w.alevel == 1 ? 4 : 0);
         w.actors[1].role = 'E'; w.actors[1].action = w.family[3] - '0'; w.actors[1].fid = 1; w.actors[1].spec = {0, PG + 2, 0};
@@ -660,12 +675,13 @@ void pmc_run(const char* config) {
         run_actors({ORD[ord][0], ORD[ord][1], ORD[ord][2]});
     } else if (w.family == "sq" || w.family == "sqx") {
         w.actors.resize(1);
-        w.actors[0].role = 'R'; w.actors[0].fid = 0; w.actors[0].spec = choose_spec(0, "first read");
+        bool x = w.family == "sqx";
+        w.actors[0].role = 'R'; w.actors[0].fid = 0; w.actors[0].spec = choose_spec(0, "first read", x ? 2 : 0);
         run_actors({0});
         // no read in flight from here on: range punching through the cached file (fallocate == trim == evict(offset, count))
         // "to the end" starts inside the file, except in scenario sqx (start at or beyond EOF)
         bool toend_ok = w.family == "sqx" || w.fsize[0] > (off_t)PG;
-        int punch = pmc_choose(toend_ok ? 4 : 3, PMC_PROG, 0, "punch: none / [4096,8192) / [1,4097) -> rounded outwards / from 4096 to the end");
+        int punch = x ? 3 : pmc_choose(toend_ok ? 4 : 3, PMC_PROG, 0, "punch: none / [4096,8192) / [1,4097) -> rounded outwards / from 4096 to the end");
         if (punch) {
             IFile* f = W->cfs->open(W->fname[0].c_str(), O_RDONLY);
             if (!f) pmc_violation("open-failed", "open for punching failed");
@@ -673,13 +689,13 @@ void pmc_run(const char* config) {
             char b[32]; snprintf(b, sizeof b, "punch%d:%d ", punch, r); w.log += b;
             delete f;
         }
-        int reuse = pmc_choose(3, PMC_PROG, 0, "reuse: keep the pool / new pool on the same media, sync scan / async scan");
+        int reuse = pmc_choose(x ? 2 : 3, PMC_PROG, 0, "reuse: keep the pool / new pool on the same media, sync scan / async scan");
         if (reuse) {
             delete w.cfs; w.cfs = nullptr;
             build_cache(reuse == 2);
             char b[16]; snprintf(b, sizeof b, "reuse%d ", reuse); w.log += b;
         }
-        w.actors.resize(2); w.actors[1].role = 'R'; w.actors[1].fid = 0; w.actors[1].spec = choose_spec(0, "second read");
+        w.actors.resize(2); w.actors[1].role = 'R'; w.actors[1].fid = 0; w.actors[1].spec = choose_spec(0, "second read", x ? 2 : 0);
         run_actors({1});
     } else pmc_broken("unknown scenario %s", w.family.c_str());
 
@@ -693,15 +709,23 @@ void pmc_run(const char* config) {
 }
 
 static const PmcConfig CFG[] = {
-    // suite    tiers  sched  time   env    total
-    {"conc-q",    1, {0,0}, {0,0}, {2,2}, {0,0}, "concurrent readers / reader-evictor-reader variants"},
-    {"seq-q",     1, {0,0}, {0,0}, {2,2}, {0,0}, "sequential read, punch, reuse, read"},
-    {"t-quota",   2, {0,0}, {0,0}, {2,2}, {0,0}, ""},
-    {"t-disk",    2, {0,0}, {0,0}, {2,2}, {0,0}, ""},
-    {"t-y3",      2, {0,0}, {0,0}, {2,2}, {0,0}, ""},
-    {"t-a2",      2, {0,0}, {0,0}, {2,2}, {0,0}, ""},
-    {"t-seq",     2, {0,0}, {0,0}, {2,2}, {0,0}, ""},
-    {"x-punch-eof", 2, {0,0}, {0,0}, {1,1}, {0,0}, ""},
+    {"rr:cap1:fie:ru4:s8193:a1:y012f", 3, {0,0}, {0,0}, {2,3}, {0,0}, ""},
+    {"rr:cap1:fie:ru4:s8193:a1:y02f", 3, {0,0}, {0,0}, {2,3}, {0,0}, ""},
+    {"rr:big:rng:ru8:s4097:a1:y012f", 3, {0,0}, {0,0}, {2,3}, {0,0}, ""},
+    {"rew1:cap1:fie:ru4:s8193:a1:y012f", 3, {0,0}, {0,0}, {2,3}, {0,0}, ""},
+    {"rew1:cap1:fie:ru4:s8193:a1:y02f", 3, {0,0}, {0,0}, {2,3}, {0,0}, ""},
+    {"rec1:cap0:fie:ru4:s4097:a1:y012f", 3, {0,0}, {0,0}, {2,3}, {0,0}, ""},
+    {"rew2:cap1:fie:ru4:s8193:a1:y02f", 3, {0,0}, {0,0}, {2,3}, {0,0}, ""},
+    {"rew3:cap1:fie:ru4:s8193:a1:y012f", 3, {0,0}, {0,0}, {2,3}, {0,0}, ""},
+    {"rew4:cap1:fie:ru4:s8193:a1:y02f", 3, {0,0}, {0,0}, {2,3}, {0,0}, ""},
+    {"rec4:big:rng:ru8:s8193:a1:y02f", 3, {0,0}, {0,0}, {2,3}, {0,0}, ""},
+    {"rer1:cap1:fie:ru4:s8193:a1:y02f", 3, {0,0}, {0,0}, {2,3}, {0,0}, ""},
+    {"rea1:cap1:fie:ru4:s8193:a1:y023f", 3, {0,0}, {0,0}, {2,3}, {0,0}, ""},
+    {"rea2:cap1:rng:ru4:s8193:a1:y23f", 3, {0,0}, {0,0}, {2,3}, {0,0}, ""},
+    {"sq:cap1:fie:ru4:s8193:a1:yf", 3, {0,0}, {0,0}, {2,3}, {0,0}, ""},
+    {"sq:big:rng:ru8:s1,4095,4096,4097:a1:yf", 3, {0,0}, {0,0}, {2,3}, {0,0}, ""},
+    {"rr:cap1:fie:ru8:s12288:a2:y02f", 3, {0,0}, {0,0}, {2,3}, {0,0}, ""},
+    {"rr:cap1:fie:ru4:s8193:a1:y0123f", 3, {0,0}, {0,0}, {2,3}, {0,0}, ""},
 };
 const PmcConfig* pmc_configs(int* n) { *n = sizeof CFG / sizeof CFG[0]; return CFG; }
 const char* pmc_property(void) { return "C17"; }
